@@ -95,6 +95,7 @@ type Async struct {
 	fav      int
 	flipped  bool
 	cleared  bool
+	keyGone  bool
 	restarts int
 	focusDone map[[3]uint32]bool
 }
@@ -296,6 +297,24 @@ func (a *Async) step() {
 			a.flipped = true
 			w.Stat("watch_flag_set_mid_view")
 			w.act("node %d sets its watch-only flag at (%d,%d)", n.ID, n.D.BlockIndex, n.D.ViewNumber)
+		}
+	}
+	if a.O.FlagFlips && !a.keyGone && a.pct("keywithdrawn", 2) {
+		// the application withdraws a validator's key in the middle of a height (GetKeyPair answers -1 from now on): the
+		// library learns it at its next (re)initialisation - view change or height - and is an observer from then on
+		// (seeded change C13l: the key pair looked up once per height)
+		var cand []*Node
+		for _, n := range w.Live() {
+			if !n.WatchFlag && !n.Faulty && !n.KeyWithdrawn && n.D.Validators != nil && n.D.MyIndex >= 0 && !n.D.BlockSent() {
+				cand = append(cand, n)
+			}
+		}
+		if len(cand) > 0 {
+			n := cand[a.r("keynode", len(cand))]
+			n.KeyWithdrawn, n.KeyWithdrawnH, n.KeyWithdrawnV = true, n.D.BlockIndex, n.D.ViewNumber
+			a.keyGone = true
+			w.Stat("key_withdrawn_mid_height")
+			w.act("node %d: the application withdraws its key at (%d,%d)", n.ID, n.D.BlockIndex, n.D.ViewNumber)
 		}
 	}
 	if !a.cleared && a.pct("flagclear", 2) {
